@@ -93,10 +93,16 @@ def run(ck, rng, tier):
     X = [[rng.gauss(0, 1) for _ in range(3)] for _ in range(14)]
     Y = [[sum(r) + rng.gauss(0, 0.1)] for r in X]
     boots = []
+    # a second data set with FEWER objects than the largest worker count (7 objects, 8 iterations, up to 8 workers)
+    X7 = [[rng.gauss(0, 1) for _ in range(2)] for _ in range(7)]
+    Y7 = [[r[0] - 0.5 * r[1] + rng.gauss(0, 0.1)] for r in X7]
     for algo in (4, 0):
         for nth in (1, 2, 4):
             lines.append("boot %d %s %s 3 4 %d %d" % (algo, vf.fmt_mat(X), vf.fmt_mat(Y), nth, 3 if not thorough else 8))
-            meta.append(("boot", algo, nth))
+            meta.append(("boot", (algo, "14 objects, 3 groups, 4 iterations"), nth))
+        for nth in (1, 2, 4, 8):
+            lines.append("boot %d %s %s 2 8 %d %d" % (algo, vf.fmt_mat(X7), vf.fmt_mat(Y7), nth, 2 if not thorough else 5))
+            meta.append(("boot", (algo, "7 objects, 2 groups, 8 iterations"), nth))
     # --- y-scrambling (bootstrap and leave-one-out validation inside): thread counts dividing the rounds
     for algo in (4, 0):
         for vtype, rounds, nths in ((1, 6, (1, 2, 3, 6)), (0, 4, (1, 2, 4))):
@@ -151,7 +157,7 @@ def run(ck, rng, tier):
             ck.case(mt)
             preds = [o[k] for k in sorted(o) if k.startswith("pred") and not k.endswith(".shape")]
             if any(p != preds[0] for p in preds):
-                ck.fail("BootstrapRandomGroupsCV", "run_to_run_nondeterminism", "repeated runs with %d threads differ" % nth, {"algo": algo, "threads": nth})
+                ck.fail("BootstrapRandomGroupsCV", "run_to_run_nondeterminism", "repeated runs with %d threads differ (%s)" % (nth, algo[1]), {"algo": algo[0], "config": algo[1], "threads": nth})
             bootres.setdefault(algo, {})[nth] = preds[0]
     for (algo, cfg), byth in yscr.items():
         base = np.array(byth.get(1))
@@ -163,7 +169,7 @@ def run(ck, rng, tier):
         base = byth.get(1)
         for nth, p in byth.items():
             if p != base:
-                ck.fail("BootstrapRandomGroupsCV", "thread_count_dependence", "result with %d threads differs from the sequential run" % nth, {"algo": algo, "threads": nth})
+                ck.fail("BootstrapRandomGroupsCV", "thread_count_dependence", "result with %d threads differs from the sequential run (%s)" % (nth, algo[1]), {"algo": algo[0], "config": algo[1], "threads": nth})
     # --- clock path: srand_(s0) makes the state 0, the next draw consults time()
     if clock and hint:
         r1 = vf.run_driver(exe, "rng %d 3 0 1000\n" % hint)[1]
@@ -206,7 +212,7 @@ def run(ck, rng, tier):
     ck.cov["model_checks_evaluated_in_coq"] = len(checks.items)
     ck.cov["traces_validated_against_impl"] = len(meta)
     ck.cov["rule"] = ("RNG: random and boundary seeds; schedules: ALL interleavings of 2-3 workers' calls on small scripts (imposed through the yield hook) "
-                      "plus random ones; group generator under random imposed schedules; bootstrap CV under the OS scheduler with 1,2,4 threads; distinct by full case")
+                      "plus random ones; group generator under random imposed schedules; bootstrap CV under the OS scheduler with 1,2,4 threads (14 objects) and 1,2,4,8 threads (7 objects: fewer objects than workers); y-scrambling with thread counts dividing the rounds; distinct by full case")
     ck.assumptions += ["RNG calls are atomic steps at the granularity of one library call (the yield hook sits at call entry); word tearing / compiler reordering / C11 data-race UB are not modelled",
                        "T-leaf transcription of numeric.c (cross-checked here against the compiled functions)"]
 
